@@ -133,16 +133,10 @@ ROUND3 += [
         (J + "models/base.py", "        while self._field_labels.setdefault(label, name) != name:\n            label += \"_\"\n        return label\n",
          "        while label in self._field_labels:\n            label += \"_\"\n        self._field_labels[label] = name\n        return label\n"),
     ]),
-    ("class_dedup_collect_first", "class names are collected in a list before duplicates are renamed", [
+    ("class_dedup_sort_in_place", "the models are sorted in place before duplicates are renamed", [
         (J + "models/base.py",
-         "    used = set() if used is None else used\n    for gen, nested_generators in generators:\n        name = gen.model.name\n"
-         "        while name in used:\n            name += \"_\"\n        used.add(name)\n        if name != gen.model.name:\n"
-         "            gen.model.set_raw_name(name, generated=gen.model.is_name_generated)\n"
-         "        _fix_class_name_duplicates(nested_generators, used)\n",
-         "    used = set() if used is None else used\n    for gen, nested_generators in generators:\n        model = gen.model\n        name = model.name\n"
-         "        while name in used:\n            name += \"_\"\n        used.add(name)\n        if name != model.name:\n"
-         "            model.set_raw_name(name, generated=model.is_name_generated)\n"
-         "        _fix_class_name_duplicates(nested_generators, used)\n"),
+         "    for model in sorted(models, key=lambda m: (len(str(m.index)), str(m.index))):\n",
+         "    models.sort(key=lambda m: (len(str(m.index)), str(m.index)))\n    for model in models:\n"),
     ]),
 ]
 
